@@ -1,0 +1,19 @@
+//go:build verif
+
+package putsvc
+
+import (
+	"io"
+
+	iec "github.com/nspcc-dev/neofs-node/internal/ec"
+	"github.com/nspcc-dev/neofs-sdk-go/object"
+)
+
+// VerifECEncodeParent runs modifyECParentObject (node-side EC encoding of one
+// payload under several rules from one pooled buffer) on a bare target and
+// returns the encoded parts per rule (verification harness only).
+func VerifECEncodeParent(rules []iec.Rule, hdr *object.Object, payload io.Reader) ([][][]byte, error) {
+	t := &distributedTarget{ecRules: rules}
+	err := t.modifyECParentObject(hdr, payload)
+	return t.encodedECParts, err
+}
